@@ -314,9 +314,11 @@ def run(chk: core.Check):
                   # beyond its finite end are returned as drawn, with the density of the point that is returned
                   {"backend": "zuko", "bounded": "probit", "dtype": "float64", "d": 2, "lo": [0.0, -2.0], "hi": [INF, 3.0], "affine": True, "seed": 8, "train": True},
                   {"backend": "flowjax", "bounded": "logit", "dtype": "float64", "d": 2, "lo": [-INF, 10.0], "hi": [4.0, 10.5], "affine": False, "seed": 9, "train": True},
+                  # a range that ENDS exactly at zero (a negative-definite parameter): 0 is a bound like any other
+                  {"backend": "zuko", "bounded": "logit", "dtype": "float64", "d": 2, "lo": [-4.0, -2.0], "hi": [0.0, 3.0], "affine": True, "seed": 11, "train": True},
                   {"backend": "flowjax", "bounded": "probit", "dtype": "float64", "d": 2, "lo": [-1.0, 5000.0], "hi": [3.0, 5001.0], "affine": False, "seed": 10, "train": True},
                   {"backend": "zuko", "bounded": "off", "dtype": "float64", "d": 1, "lo": [0.0], "hi": [1e-14], "affine": True, "seed": 6, "train": True}]
-        for c in (corpus[:5] if quick else corpus):
+        for c in (corpus[:6] if quick else corpus):
             check_flow(chk, c, tmp, drv)
         for i in range(n):
             check_flow(chk, gen_case(r, i), tmp, drv)
